@@ -6,10 +6,11 @@ def respond (line : String) : List String :=
   let line := line.trimAscii.toString
   match line.splitOn " " with
   | "facts" :: e :: rest =>
+    -- `cli`, `cli-ub` (with --allow-undefined-behavior), `lib`
     let entry := if e == "lib" then Entry.lib else Entry.cli
     match parseCase (" ".intercalate rest) with
     | .error m => [s!"bad-request {m}"]
-    | .ok c => facts entry c
+    | .ok c => facts entry c (e == "cli-ub")
   | _ => ["bad-request unknown"]
 
 partial def loop (h : IO.FS.Stream) (out : IO.FS.Stream) : IO Unit := do
